@@ -35,3 +35,19 @@ Theorem C18_printed_names : forall (r r' p : list nat) occ, occ + 1 <= length p 
   portion_after_sep (r ++ p) occ = portion_after_sep (r' ++ p) occ.
 Proof. exact (@portion_relocate nat). Qed.
 Print Assumptions C18_printed_names.
+
+(* the key by which diagnostics are ordered before grouping (tokenhelper.AbsFromCwd of the cwd-relative name, finding F107)
+   is the absolute name of the file: the same from every working directory; and the order of two files of one module does
+   not depend on where the module lives *)
+Theorem C18_sort_key_round_trip : forall cwd t, join_clean cwd (rel cwd t) = t.
+Proof. exact abs_of_rel. Qed.
+Print Assumptions C18_sort_key_round_trip.
+
+Theorem C18_sort_key_cwd_independent : forall c1 c2 t,
+  abs_from_cwd c1 (rel_to_cwd c1 (Abs t)) = abs_from_cwd c2 (rel_to_cwd c2 (Abs t)).
+Proof. exact sort_key_cwd_independent. Qed.
+Print Assumptions C18_sort_key_cwd_independent.
+
+Theorem C18_order_relocates : forall r p q, lex_leb (r ++ p) (r ++ q) = lex_leb p q.
+Proof. exact lex_relocate. Qed.
+Print Assumptions C18_order_relocates.
